@@ -220,12 +220,37 @@ def make_check_vectorised(kind):
                     out[i] = ctx.uf("LL", z["x"][0], z["y"][0])
                 return out
             return ctx.uf("LL", z["x"], z["y"])
-        f = dict(vec=vec, novec=novec, wrong=wrong)[kind]
+        deltas = [ctx.real(f"delta{i}", -1, 1) for i in range(3)]
+
+        def base(zx, zy):
+            # an explicit function of the point (not an uninterpreted one): the counterexample's inputs then determine every value in the replay
+            return zx + 2 * zy
+
+        def approx(z):
+            # a batch path that agrees with the pointwise path only approximately (e.g. a float32 / GPU kernel)
+            if isinstance(z, np.ndarray) and z.ndim == 1:
+                out = np.empty(len(z), dtype=object if ctx.mode == "sym" else float)
+                for i in range(len(z)):
+                    out[i] = base(z["x"][i], z["y"][i]) + deltas[i]
+                return out
+            return base(z["x"], z["y"])
+        f = dict(vec=vec, novec=novec, wrong=wrong, approx=approx)[kind]
         r = check_vectorised_function(f, x, dtype="O" if ctx.mode == "sym" else "f8")
         if kind == "vec":
             ctx.prove(r is True, "a vectorised function is detected as vectorised")
         elif kind == "novec":
             ctx.prove(r is False, "a function that rejects arrays is not treated as vectorised")
+        elif kind == "approx":
+            # "exactly the values obtained by evaluating each point on its own": a function may only be classed as vectorised
+            # when its batch values agree with the pointwise ones at the rounding level of a double (here: 1e-14 absolute + relative,
+            # ten times the shipped tolerance); anything looser makes the batch interface return different values
+            close = True
+            for i in range(3):
+                li = base(x["x"][i], x["y"][i])
+                close = close & (abs(deltas[i]) <= 1e-14 * (1 + abs(li)))
+            ctx.prove(OR(r is False, close), "a function is classed as vectorised only if batch and pointwise values agree at the rounding level of a double")
+            exact = (deltas[0] == 0) & (deltas[1] == 0) & (deltas[2] == 0)
+            ctx.prove(OR(r is True, NOT(exact)), "a function whose batch values equal the pointwise ones is classed as vectorised")
         else:
             # if the batch result differs from the pointwise one by more than the tolerance anywhere, it must be rejected
             l0 = ctx.uf("LL", x["x"][0], x["y"][0])
@@ -265,6 +290,6 @@ def units(tier):
                                expect_cover=["end"], twin_runs=4, witness_every=3, nproc=1, object_lp=True))
     for ret in ("scalar", "array"):
         us.append(Unit(f"single[{ret}]", make_single(ret), MODS, opts, expect_cover=["end"], twin_runs=3, witness_every=1, nproc=1, object_lp=True))
-    for kind in ("vec", "novec", "wrong"):
+    for kind in ("vec", "novec", "wrong", "approx"):
         us.append(Unit(f"check_vectorised[{kind}]", make_check_vectorised(kind), MODS, opts, expect_cover=["end"], twin_runs=10, witness_every=1, nproc=1, object_lp=True))
     return us
